@@ -126,9 +126,9 @@ type c16EpFacts struct {
 }
 
 type c16Facts struct {
-	NameOK   bool         `json:"name_ok"` // ValidateObjectMeta of the object has no error
+	NameOK   bool         `json:"name_ok"`    // ValidateObjectMeta of the object has no error
 	NameLow  bool         `json:"name_lower"` // strings.ToLower(name) == name
-	Gate     string       `json:"gate"`    // absent | ok | bad   (featuregate.Set on a copy of the defaults)
+	Gate     string       `json:"gate"`       // absent | ok | bad   (featuregate.Set on a copy of the defaults)
 	Eps      []c16EpFacts `json:"eps"`
 	CCPairOK bool         `json:"cc_pair_ok"` // tls.X509KeyPair(cert, key) err == nil
 	CCCAOK   bool         `json:"cc_ca_ok"`   // certutil.ParseCertsPEM(ca) err == nil
@@ -574,25 +574,25 @@ func (g *c16Gateway) round(o *proxyv1alpha1.UpstreamCluster) c16Round {
 	return r
 }
 
-// rounds: gateway A applies every version in turn (the limiter's handler sees each version first);
-// for a pair, a second gateway replica B that only ever saw the last version then does its first round.
+// rounds (the limiter's handler sees a version before any round on it): gateway A on object 1; for a pair,
+// a second gateway replica B that never saw object 1 does its first round on object 2, then A does.
 func remoteRounds(objs []*proxyv1alpha1.UpstreamCluster) []c16Round {
 	cluster := strings.ToLower(objs[0].Name)
 	a := newGateway(cluster, "gw-a")
 	defer a.stop()
 	out := []c16Round{}
 	var last *proxyv1alpha1.UpstreamCluster
-	for _, v := range objs {
+	for i, v := range objs {
 		o := v.DeepCopy()
 		last = o
 		lim.setCluster(o)
 		_ = outcome(func() error { return lim.v.Handler(o) })
+		if i > 0 && i == len(objs)-1 {
+			b := newGateway(cluster, "gw-b")
+			defer b.stop()
+			out = append(out, b.round(o))
+		}
 		out = append(out, a.round(o))
-	}
-	if len(objs) > 1 {
-		b := newGateway(cluster, "gw-b")
-		defer b.stop()
-		out = append(out, b.round(last))
 	}
 	lim.delCluster(last)
 	_ = outcome(func() error { return lim.v.Handler(last) })
